@@ -1,4 +1,5 @@
 """C05 — unseen data is given fitted labels or rejected, never passed through."""
+import warnings
 import json, math, random
 import numpy as np, pandas as pd
 from . import core, fitgen, c04
@@ -146,6 +147,22 @@ def worker(args):
             if r["obj"] is None:
                 stats["skipped_fit_error"] += 1; continue
             obj, X = r["obj"], r["ds"]["X"]
+            if isinstance(r["meta"].get("cfg"), dict) and rng.random() < 0.2:
+                # the same fit with user-chosen markers: the default group of rare categories goes by the name the object was
+                # given, and unseen categories must still fall into it
+                cfg2 = dict(r["meta"]["cfg"])
+                cfg2["markers"] = rng.choice([{"str_default": "RARE"}, {"str_default": "autres", "str_nan": "MISSING"}])
+                try:
+                    with warnings.catch_warnings():
+                        warnings.simplefilter("ignore")
+                        o2 = fitgen.fit_carver(r["ds"], cfg2) if r["meta"]["what"] == "carver" else \
+                            fitgen.fit_discretizer(r["meta"]["class"], r["ds"], cfg2)
+                    if o2 is not None:
+                        obj = o2
+                        r["meta"] = {**r["meta"], "cfg": cfg2}
+                        stats["custom_markers"] = stats.get("custom_markers", 0) + 1
+                except Exception:
+                    pass
             if not obj.features:
                 stats["na"] += 1; continue
             stats["objects"] += 1
